@@ -2,7 +2,7 @@
    (Gen/OverwritePrograms.v), plus witnesses that the checkers reject what they should. *)
 From Coq Require Import List String Bool Arith.
 Import ListNotations.
-Require Import MD.Overwrite.Model MD.Overwrite.Proofs MD.Gen.OverwritePrograms.
+Require Import MD.Overwrite.Model MD.Overwrite.Proofs MD.Gen.OverwritePrograms MD.Gen.OverwriteChecks.
 
 Lemma in_forallb {A} (f : A -> bool) l x : forallb f l = true -> In x l -> f x = true.
 Proof. intros H Hin. rewrite forallb_forall in H. apply H, Hin. Qed.
